@@ -46,6 +46,16 @@ def make_input(rng, metric, style, n, dim):
     base, _ = api.gen_dataset(rng, metric, "dense32", n, dim)
     if style == "f32c":
         return np.ascontiguousarray(base), "f32 c 0 0 1"
+    if style == "f32sub":
+        # "any array": an ndarray SUBCLASS instance (user class; np.memmap behaves the same) - check_array hands back a base-class
+        # view of the same buffer, so identity tests on the object say "converted" although nothing was copied
+        return np.ascontiguousarray(base).view(_UserArray), "f32 c 0 0 1"
+    if style == "f32memmap":
+        import tempfile
+        d = tempfile.mkdtemp(prefix="c17mm_"); _TMPDIRS.append(d)
+        mm = np.memmap(os.path.join(d, "x.dat"), dtype=np.float32, mode="w+", shape=base.shape)
+        mm[:] = base
+        return mm, "f32 c 0 0 1"
     if style == "f64c":
         return base.astype(np.float64), "f64 c 0 0 1"
     if style == "f32f":
@@ -71,10 +81,16 @@ def make_input(rng, metric, style, n, dim):
     raise ValueError(style)
 
 
-STYLES = ["f32c", "f64c", "f32f", "f32strided", "csr32", "csr32u", "csr64", "csc32", "bits", "f64f"]
+class _UserArray(np.ndarray):
+    pass
 
 
-def check_case(res, rng, style, metric, update_first=False):
+_TMPDIRS = []
+
+STYLES = ["f32sub", "f32memmap", "f32c", "f64c", "f32f", "f32strided", "csr32", "csr32u", "csr64", "csc32", "bits", "f64f"]
+
+
+def check_case(res, rng, style, metric, update_first=False, tree_init=None):
     n = int(rng.choice([30, 70])); dim = 5 if style != "bits" else 3; k = 4
     X, cls = make_input(rng, metric, style, n, dim)
     sparse = sp.issparse(X)
@@ -86,7 +102,7 @@ def check_case(res, rng, style, metric, update_first=False):
         extra["init_graph"] = w.add("init_graph", G)
         if rng.integers(2):
             extra["init_dist"] = w.add("init_dist", rng.random((n, k)).astype(np.float32))
-    tree_init = bool(rng.integers(3) > 0)
+    tree_init = bool(rng.integers(3) > 0) if tree_init is None else tree_init
     case = {"style": style, "metric": metric, "n": n, "tree_init": tree_init, "extra": sorted(extra)}
     key = "alias:%s:%s" % (style, metric)
     ops_done = ["init"]
@@ -144,12 +160,12 @@ def check_case(res, rng, style, metric, update_first=False):
 
 def run(res, tier, seed, search):
     rng = np.random.default_rng(seed + 1717)
-    res.rule = ("input styles (f32/f64, C/F/strided, CSR sorted/unsorted, CSR f64, CSC, uint8) x metrics incl. the normalising dot x "
+    res.rule = ("input styles (f32/f64, C/F/strided, ndarray subclass, np.memmap, CSR sorted/unsorted, CSR f64, CSC, uint8) x metrics incl. the normalising dot x "
                 "shuffled histories {prepare, query, update(fresh+replace), pickle, compress}; bytes of every array ever handed in compared "
                 "after every op; alias bit of the model vs np.shares_memory; non-trivial = >= 3 operations completed")
     metrics = {"bits": ["bit_hamming"], "default": ["euclidean", "dot", "cosine", "manhattan"]}
-    others = [s_ for s_ in STYLES if s_ not in ("f32c", "csr32u")]
-    styles = STYLES if tier != "quick" or search else ["f32c", "csr32u"] + [others[(3 * seed + i) % len(others)] for i in range(3)]
+    others = [s_ for s_ in STYLES if s_ not in ("f32c", "csr32u", "f32sub")]
+    styles = STYLES if tier != "quick" or search else ["f32c", "csr32u", "f32sub"] + [others[(3 * seed + i) % len(others)] for i in range(3)]
     reps = 1 if tier == "quick" else 3
     for style in styles:
         ms = metrics["bits"] if style == "bits" else metrics["default"]
@@ -162,6 +178,15 @@ def run(res, tier, seed, search):
             check_case(res, rng, style, "dot")
             check_case(res, rng, style, "euclidean", update_first=True)
             check_case(res, rng, style, "dot", update_first=True)
+            # the index aliases this buffer: every (metric with its own query glue) x (rows reordered at prepare or not)
+            for m in ("cosine", "euclidean"):
+                for ti in (False, True):
+                    check_case(res, rng, style, m, tree_init=ti)
+        if style in ("f32sub", "f32memmap"):
+            check_case(res, rng, style, "dot")
+    import shutil
+    while _TMPDIRS:
+        shutil.rmtree(_TMPDIRS.pop(), ignore_errors=True)
 
 
 if __name__ == "__main__":
